@@ -50,10 +50,10 @@ Definition is_cmd (a : ascii) : bool :=
 (* ------------------------------------------------------------------ *)
 (* a backtracking regex matcher (the fragment FLOAT_RE needs)          *)
 
-Inductive re :=
+Inductive regex :=
 | RCls (p : ascii -> bool)      (* one character of a class *)
-| RSeq (a b : re)               (* ab *)
-| ROpt (a : re)                 (* a?  greedy *)
+| RSeq (a b : regex)               (* ab *)
+| ROpt (a : regex)                 (* a?  greedy *)
 | RStar (p : ascii -> bool)     (* [class]*  greedy *)
 | RPlus (p : ascii -> bool).    (* [class]+  greedy *)
 
@@ -69,7 +69,7 @@ Fixpoint star_k {A} (p : ascii -> bool) (k : list ascii -> option A) (s : list a
   end.
 
 (* match r at the head of s, then k on the rest; None = no way to match *)
-Fixpoint rmatch {A} (r : re) (s : list ascii) (k : list ascii -> option A) : option A :=
+Fixpoint rmatch {A} (r : regex) (s : list ascii) (k : list ascii -> option A) : option A :=
   match r with
   | RCls p => match s with c :: s' => if p c then k s' else None | [] => None end
   | RSeq a b => rmatch a s (fun s1 => rmatch b s1 k)
@@ -79,7 +79,7 @@ Fixpoint rmatch {A} (r : re) (s : list ascii) (k : list ascii -> option A) : opt
   end.
 
 (* [-+]?[0-9]*\.?[0-9]+(?:[eE][-+]?[0-9]+)? *)
-Definition FLOAT_RE : re :=
+Definition FLOAT_RE : regex :=
   RSeq (ROpt (RCls is_sign))
  (RSeq (RStar is_digit)
  (RSeq (ROpt (RCls is_dot))
